@@ -44,6 +44,36 @@ def _registered(name: str, module):
             sys.modules[name] = previous
 
 
+# Helper modules that programs imported from their own directories: module name -> that directory.
+_PROGRAM_HELPERS: dict = {}
+
+
+@contextmanager
+def _program_imports(script_dir: str):
+    """While a program runs its directory is first on `sys.path`, so that it finds the helper
+    modules stored next to it; afterwards the directory is taken off the path again. Helper
+    modules stay loaded for the next program of the same directory, but are forgotten before a
+    program from another directory runs: it must get its own `helpers.py`, not this one's."""
+    root = os.path.join(os.path.abspath(script_dir), "")
+    for name, owner in list(_PROGRAM_HELPERS.items()):
+        if owner != root:
+            del _PROGRAM_HELPERS[name]
+            sys.modules.pop(name, None)
+    sys.path.insert(0, script_dir)
+    before = set(sys.modules)
+    try:
+        yield
+    finally:
+        try:
+            sys.path.remove(script_dir)
+        except ValueError:
+            pass
+        for name in set(sys.modules) - before:
+            location = getattr(sys.modules.get(name), "__file__", None)
+            if location and os.path.abspath(location).startswith(root):
+                _PROGRAM_HELPERS[name] = root
+
+
 @add_timer(timer_name="nada_dsl.compile.compile")
 def compile_script(script_path: str) -> CompilerOutput:
     """Compiles a NADA program
@@ -55,7 +85,6 @@ def compile_script(script_path: str) -> CompilerOutput:
         CompilerOutput: The Compiler Output
     """
     script_dir = os.path.dirname(script_path)
-    sys.path.insert(0, script_dir)
     script_name = os.path.basename(script_path)
     if script_name.endswith(".py"):
         script_name = script_name[:-3]
@@ -66,7 +95,7 @@ def compile_script(script_path: str) -> CompilerOutput:
     if spec is None or spec.loader is None:
         raise ImportError(f"cannot load program {script_path}")
     script = importlib.util.module_from_spec(spec)
-    with _registered(_PROGRAM_MODULE, script):
+    with _program_imports(script_dir), _registered(_PROGRAM_MODULE, script):
         timer.start("nada_dsl.compile.compile.__import__")
         try:
             spec.loader.exec_module(script)
